@@ -75,5 +75,6 @@ func (e errCycleDetected) Format(w fmt.State, c rune) {
 // IsCycleDetected returns a boolean as to whether the provided error indicates
 // a cycle was detected in the container graph.
 func IsCycleDetected(err error) bool {
-	return errors.As(err, &errCycleDetected{})
+	var cycle *errCycleDetected
+	return errors.As(err, &cycle)
 }
